@@ -1041,8 +1041,20 @@ def tab15(units, R):
                             n += 1
                             v = const_val(ev.node['r']) if ev.rhs is not None else None
                             ok = v in WHITESPACE
-                            R.ob('TAB15', fn, ev.node, 'store controlled by format writes whitespace only', ok,
-                                 'writes %r' % (chr(v) if v is not None else expr_str(ev.node['r'])[:30]),
+                            why = 'writes %r' % (chr(v) if v is not None else expr_str(ev.node['r'])[:30])
+                            r0 = strip_casts(ev.node['r']) if ev.rhs is not None else {}
+                            if not ok and r0.get('k') == 'ref' and r0.get('dk') == 'param' and \
+                                    not any(is_ref(a_['l']) and strip_casts(a_['l'])['d'] == r0['d'] for a_ in assignments(fn)):
+                                # the byte is a parameter: whitespace when every call site hands a whitespace constant over
+                                pi = [i for i, p_ in enumerate(fn.params) if p_['d'] == r0['d']][0]
+                                sites = [c_ for g_ in u.function_list for c_ in g_.calls() if callee_name(c_) == fn.name]
+                                vals = [const_val(c_['args'][pi]) if pi < len(c_['args']) else None for c_ in sites]
+                                if sites and all(v_ in WHITESPACE for v_ in vals):
+                                    ok = True
+                                    why = 'parameter %s, a whitespace constant at each of the %d call sites' % (r0['n'], len(sites))
+                                elif sites:
+                                    why = 'parameter %s, which is %s at a call site' % (r0['n'], [expr_str(c_['args'][pi])[:12] for c_, v_ in zip(sites, vals) if v_ not in WHITESPACE][0])
+                            R.ob('TAB15', fn, ev.node, 'store controlled by format writes whitespace only', ok, why,
                                  key='fmtstore:%s' % expr_str(ev.node)[:40])
                         elif ev.kind == 'call' and callee_name(ev.node) == 'memset' and len(ev.node['args']) == 3:
                             n += 1
